@@ -140,10 +140,11 @@ static unsigned int irc_pton_ip4(const char *input, unsigned int *pbits,
             goto out;
         else if (!pbits || !isdigit(input[pos + 1]))
             return 0;
-        for (bits = 0; isdigit(input[++pos]); )
+        for (bits = 0; isdigit(input[++pos]); ) {
             bits = bits * 10 + input[pos] - '0';
-        if (bits > 32)
-            return 0;
+            if (bits > 32)
+                return 0;
+        }
         goto out;
     case '0': case '1': case '2': case '3': case '4':
     case '5': case '6': case '7': case '8': case '9':
@@ -227,10 +228,11 @@ unsigned int irc_pton(irc_inaddr *addr, unsigned int *bits, const char *input, i
                     *bits = 128;
                 goto finish;
             }
-            for (part = 0; isdigit(input[++pos]); )
+            for (part = 0; isdigit(input[++pos]); ) {
                 part = part * 10 + input[pos] - '0';
-            if (part > 128)
-                return 0;
+                if (part > 128)
+                    return 0;
+            }
             *bits = part;
             goto finish;
         case '*':
